@@ -7,6 +7,8 @@ Line-protocol driver for the node-recovery model (C07).
   appendbad                                         (a log entry whose payload does not decompress)
   wgc                                               (WAL garbage-collect tick on an expired family: writeAheadLog.destroy)
   recoverp                                          (recover + rewind, answering positions and files only)
+  lanes <leader> ...                                (instead of reset: a node holding the logs of these leaders for the family)
+  @<leader> <lane op>                               (append / appendbad / begin .. commit / apply / gc / wgc of that leader's partition)
   mprep | mflushm | mflusht | iprep | iflush        (metadata / index dictionary flush steps)
   fmeta | findex                                    (= the whole FlushMeta / FlushIndex call)
   freeze | dcommit | ack                            (the three steps of dataFamily.Flush)
@@ -73,54 +75,102 @@ def showDurable (st : St) : String :=
   let idx := st.index.dur.filter (fun p => st.metric.dur.contains p.1 && st.tagv.dur.contains p)
   s!"files={showFiles st} unres={showNats (unres.map (fun r => r.seq.toNat))} iunres={showPairs iunres} names={showNats names} tagv={showPairs tagv} idx={showPairs idx}"
 
-def ev (st : St) (e : Ev) : St × String :=
-  let st' := step cfg st e
-  (st', showPos st')
-
-def stepLine (st : St) (ws : List String) : St × String :=
+/-- lane events an op line stands for (`none`: not a lane op) -/
+def laneOp (ws : List String) : Option (List Ev) :=
   match ws with
-  | ["reset"] => (St.init, showPos St.init)
   | ["append", m, t] =>
     match m.toNat?, t.toNat? with
-    | some m, some t => ev st (.append m t)
-    | _, _ => (st, "bad-op")
-  | ["apply"] =>       -- one whole localReplicator.Replica
-    let st' := run cfg st applyRound
-    (st', showPos st')
-  | ["fmeta"] =>       -- database.FlushMeta + WaitFlushMetaCompleted
-    let st' := run cfg st [.metaPrepare, .metaFlushMetric, .metaFlushTagv]
-    (st', showPos st')
-  | ["findex"] =>      -- shard.FlushIndex + WaitFlushIndexCompleted
-    let st' := run cfg st [.indexPrepare, .indexFlush]
-    (st', showPos st')
-  | ["appendbad"] => ev st .appendBad
-  | ["begin"] => ev st .applyBegin
-  | ["take"] => ev st .applyTake
-  | ["acquire"] => ev st .applyAcquire
-  | ["wgc"] => ev st .walExpire
-  | ["write"] => ev st .applyWrite
-  | ["commit"] => ev st .applyCommit
-  | ["mprep"] => ev st .metaPrepare
-  | ["mflushm"] => ev st .metaFlushMetric
-  | ["mflusht"] => ev st .metaFlushTagv
-  | ["iprep"] => ev st .indexPrepare
-  | ["iflush"] => ev st .indexFlush
-  | ["freeze"] => ev st .freeze
-  | ["dcommit"] => ev st .dataCommit
-  | ["ack"] => ev st .ackCallback
+    | some m, some t => some [.append m t]
+    | _, _ => none
+  | ["appendbad"] => some [.appendBad]
+  | ["apply"] => some applyRound            -- one whole localReplicator.Replica
+  | ["begin"] => some [.applyBegin]
+  | ["take"] => some [.applyTake]
+  | ["acquire"] => some [.applyAcquire]
+  | ["write"] => some [.applyWrite]
+  | ["commit"] => some [.applyCommit]
+  | ["wgc"] => some [.walExpire]
   | ["gc", k] =>
     match k.toInt? with
-    | some k => ev st (.logGC k)
-    | none => (st, "bad-op")
-  | ["crash"] => (step cfg st .crash, "down")
-  | ["recover"] =>
-    let st' := step cfg (step cfg st .recover) .rewind
-    (st', showPos st' ++ " " ++ showDurable st')
-  | ["recoverp"] =>    -- recovery of an image taken INSIDE a dictionary flush: positions and data files only
-    let st' := step cfg (step cfg st .recover) .rewind
-    (st', showPos st' ++ " files=" ++ showFiles st')
-  | _ => (st, "bad-op")
+    | some k => some [.logGC k]
+    | none => none
+  | _ => none
 
-def main (_args : List String) : IO Unit := Proto.runLoop St.init stepLine
+/-- family / database / process events an op line stands for -/
+def sharedOp (ws : List String) : Option (List Ev) :=
+  match ws with
+  | ["fmeta"] => some [.metaPrepare, .metaFlushMetric, .metaFlushTagv]   -- database.FlushMeta + Wait
+  | ["findex"] => some [.indexPrepare, .indexFlush]                       -- shard.FlushIndex + Wait
+  | ["mprep"] => some [.metaPrepare]
+  | ["mflushm"] => some [.metaFlushMetric]
+  | ["mflusht"] => some [.metaFlushTagv]
+  | ["iprep"] => some [.indexPrepare]
+  | ["iflush"] => some [.indexFlush]
+  | ["freeze"] => some [.freeze]
+  | ["dcommit"] => some [.dataCommit]
+  | ["ack"] => some [.ackCallback]
+  | _ => none
+
+/-- positions of every lane; a single lane prints as before, several as `L<leader>{...}` -/
+def showNode (n : Node) : String :=
+  match n with
+  | [(_, st)] => showPos st
+  | _ => " ".intercalate (n.map (fun p => s!"L{p.1}" ++ "{" ++ showPos p.2 ++ "}"))
+
+def showNodeFiles (n : Node) : String :=
+  match n with
+  | [(_, st)] => "files=" ++ showFiles st
+  | _ => " ".intercalate (n.map (fun p => s!"files{p.1}=" ++ showFiles p.2))
+
+/-- `unres` per lane (own rows), dictionaries from the first lane (all lanes hold identical copies) -/
+def showNodeDurable (n : Node) : String :=
+  match n with
+  | [(_, st)] => showDurable st
+  | [] => ""
+  | (_, st0) :: _ =>
+    let unres := fun (st : St) => showNats (((fileRows st).filter (fun r => !rowResolves st r)).map (fun r => r.seq.toNat))
+    let names := st0.metric.dur
+    let tagv := st0.tagv.dur.filter (fun p => st0.metric.dur.contains p.1)
+    let idx := st0.index.dur.filter (fun p => st0.metric.dur.contains p.1 && st0.tagv.dur.contains p)
+    let iunres := st0.index.dur.filter (fun p => !idxResolves st0 p)
+    showNodeFiles n ++ " " ++ " ".intercalate (n.map (fun p => s!"unres{p.1}=" ++ unres p.2)) ++
+      s!" iunres={showPairs iunres} names={showNats names} tagv={showPairs tagv} idx={showPairs idx}"
+
+def runN (n : Node) (nevs : List NEv) : Node := runNode cfg n nevs
+
+def stepLine (n : Node) (ws : List String) : Node × String :=
+  match ws with
+  | ["reset"] => let n' := Node.init [1]; (n', showNode n')
+  | "lanes" :: ls =>
+    match ls.mapM String.toNat? with
+    | some leaders => if leaders.isEmpty then (n, "bad-op") else let n' := Node.init leaders; (n', showNode n')
+    | none => (n, "bad-op")
+  | ["crash"] => (runN n [.shared .crash], "down")
+  | ["recover"] =>
+    let n' := runN n [.shared .recover, .shared .rewind]
+    (n', showNode n' ++ " " ++ showNodeDurable n')
+  | ["recoverp"] =>    -- recovery of an image taken INSIDE a dictionary flush: positions and data files only
+    let n' := runN n [.shared .recover, .shared .rewind]
+    (n', showNode n' ++ " " ++ showNodeFiles n')
+  | w :: rest =>
+    -- `@<leader> <lane op>`; a lane op without prefix goes to the first lane
+    let (leader?, ws') : Option Nat × List String :=
+      if w.startsWith "@" then ((w.drop 1).toString.toNat?, rest)
+      else (n.head?.map (·.1), ws)
+    match laneOp ws', sharedOp ws with
+    | some evs, _ =>
+      match leader? with
+      | some l =>
+        if (n.lane? l).isSome then
+          let n' := runN n (evs.map (NEv.lane l)); (n', showNode n')
+        else (n, "bad-op")
+      | none => (n, "bad-op")
+    | none, some evs =>
+      if w.startsWith "@" then (n, "bad-op")
+      else let n' := runN n (evs.map NEv.shared); (n', showNode n')
+    | none, none => (n, "bad-op")
+  | _ => (n, "bad-op")
+
+def main (_args : List String) : IO Unit := Proto.runLoop (Node.init [1]) stepLine
 
 end LinVerif.Driver.C07
